@@ -12,7 +12,7 @@
 (* real pfst (direction G).                                                   *)
 EXTENDS Integers, Sequences, FiniteSets, TLC, SequencesExt
 
-CONSTANTS MaxNodes, MaxTmpl, Emit   \* Emit = 0: no rows; n > 0: every row whose size key is divisible by n
+CONSTANTS MaxNodes, MaxTmpl, Family, Emit   \* Emit = 0: no rows; n > 0: every row whose size key is divisible by n
 
 Labels == {"A", "B"}
 SlotKs == {"S_", "S_a", "S_s", "S_z"}
@@ -38,9 +38,22 @@ Forests(n, leaf) == IF n = 0 THEN {<<>>}
 TreesOf(n, leaf) == IF n = 0 THEN {}
                     ELSE {N(l, cs) : l \in Labels, cs \in Forests(n - 1, leaf)}
                            \cup (IF n = 1 THEN {N(l, <<>>) : l \in leaf} ELSE {})
-Trees     == UNION {TreesOf(n, {}) : n \in 1..MaxNodes}
-Templates == UNION {TreesOf(n, SlotKs) : n \in 1..MaxTmpl} \ {N("S_s", <<>>), N("S_z", <<>>)}
-Patterns  == SUBSET Labels \ {{}}
+(* Family = "all": every tree / template within the bounds.                    *)
+(* Family = "peel": a non-matching root over 2-3 chains A(A(..B())) of          *)
+(* DIFFERENT depth (up to 13 nodes), pattern {A}, templates that peel one       *)
+(* layer (S_a), relabel it (B(S_a)) or rebuild it (A(S_s)), loop in {2, 3}: a   *)
+(* location keeps matching for a data-dependent number of rounds and every      *)
+(* location starts with a fresh loop budget.                                    *)
+RECURSIVE Chain(_)
+Chain(d) == IF d = 0 THEN N("B", <<>>) ELSE N("A", <<Chain(d - 1)>>)
+PeelTrees == {N("B", <<Chain(a), Chain(b)>>) : a, b \in 0..3}
+               \cup {N("B", <<Chain(a), Chain(b), Chain(c)>>) : a, b, c \in {0, 1, 3}}
+PeelTemplates == {N("S_a", <<>>), N("B", <<N("S_a", <<>>)>>), N("A", <<N("S_s", <<>>)>>)}
+Trees     == IF Family = "peel" THEN PeelTrees ELSE UNION {TreesOf(n, {}) : n \in 1..MaxNodes}
+Templates == IF Family = "peel" THEN PeelTemplates
+             ELSE UNION {TreesOf(n, SlotKs) : n \in 1..MaxTmpl} \ {N("S_s", <<>>), N("S_z", <<>>)}
+Patterns  == IF Family = "peel" THEN {{"A"}} ELSE SUBSET Labels \ {{}}
+Loops     == IF Family = "peel" THEN {2, 3} ELSE {0, 2}
 
 (* paths and tree surgery                                                     *)
 Step(i) == [n |-> "c", i |-> i]
@@ -111,7 +124,7 @@ CaseOk(c) == /\ (c.tmpl.k = "S_a" => AllHaveKids(c.t0, c.pat))
              (* copies, so the walk never ends (pfst does run away: `[a]`.sub(MList, '[__FST_]', True, loop=2)) *)
              /\ (c.loop > 0 /\ c.nested => c.tmpl.k \notin c.pat)
 
-CasesOf(t0) == {c \in [t0 : {t0}, pat : Patterns, tmpl : Templates, nested : BOOLEAN, count : 0..2, loop : {0, 2},
+CasesOf(t0) == {c \in [t0 : {t0}, pat : Patterns, tmpl : Templates, nested : BOOLEAN, count : 0..2, loop : Loops,
                         on : {"enter", "leave"}, back : BOOLEAN] : CaseOk(c)}
 NoCase(t0) == [t0 |-> t0, pat |-> {}, tmpl |-> None, nested |-> FALSE, count |-> 0, loop |-> 0, on |-> "none",
                back |-> FALSE]
